@@ -239,6 +239,11 @@ func (group *AbacoGroup) fillMissingPackets() (bytesAdded, packetsAdded, framesA
 	snexpect := group.lastSN + 1
 	for _, p := range group.queue {
 		sn := p.SequenceNumber()
+		if sn <= group.lastSN {
+			// Packet left over from an earlier call: it was already checked for gaps then.
+			newq = append(newq, p)
+			continue
+		}
 		for snexpect < sn {
 			pfake := p.MakePretendPacket(snexpect, group.nchan)
 			newq = append(newq, pfake)
